@@ -331,6 +331,17 @@ theorem snapEntries_ok (l : Lim) (hl : l.OK) (ents : List (Key × Val × Option 
       simp only [p4, ↓reduceIte, hp]
       exact ih (fun y hy => h y (by simp [hy])) rest _
 
+/-- every entry `compactLocked` writes takes at least 17 bytes (keyLen:4, a non-empty key, expiry:8, valLen:4) -/
+theorem snapEntries_length (l : Lim) (ents : List (Key × Val × Option Int)) (h : ∀ x ∈ ents, EntWF l x) :
+    17 * ents.length ≤ (ents.flatMap snapEntry).length := by
+  induction ents with
+  | nil => simp
+  | cons x r ih =>
+    have h1 := (h x (by simp)).1
+    have := ih (fun y hy => h y (by simp [hy]))
+    simp only [List.flatMap_cons, List.length_append, List.length_cons, snapEntry, le32_length, i64le_length]
+    omega
+
 theorem loadSnap_ok (l : Lim) (hl : l.OK) (ents : List (Key × Val × Option Int)) (h : ∀ x ∈ ents, EntWF l x)
     (hc : ents.length ≤ l.snapCountMax) : loadSnap l (encodeSnap l ents) = .ok (snapState ents) := by
   unfold loadSnap encodeSnap
@@ -345,7 +356,14 @@ theorem loadSnap_ok (l : Lim) (hl : l.OK) (ents : List (Key × Val × Option Int
   simp only [c0, ↓reduceIte]
   rw [takeN_append_left _ _ 4 rfl]
   simp only [leNat_le32' _ hcount]
-  have c1 : ¬ ents.length > l.snapCountMax := by omega
+  have c1 : ¬ ents.length > (ents.flatMap snapEntry).length / l.snapMinEntry := by
+    have h17 := snapEntries_length l ents h
+    have hp := hl.minEntryPos
+    have hm := hl.minEntry
+    have : ents.length * l.snapMinEntry ≤ (ents.flatMap snapEntry).length :=
+      Nat.le_trans (Nat.mul_le_mul_left _ hm) (by omega)
+    have := (Nat.le_div_iff_mul_le hp).2 this
+    omega
   simp only [c1, ↓reduceIte]
   have := snapEntries_ok l hl ents h [] {}
   rw [List.append_nil] at this
